@@ -140,6 +140,10 @@ pub fn current_case_raw() -> (*const u8, usize, *const u8, usize) {
 impl Watchdog {
     pub fn start(out_path: Option<String>, prop: String, limit_ms: u64) -> Watchdog {
         let t0 = Instant::now();
+        // instrumented builds (AddressSanitizer) are several times slower: STUNMON_WD_SCALE stretches
+        // the limits; a sanitizer build also stretches them by itself
+        let scale = std::env::var("STUNMON_WD_SCALE").ok().and_then(|s| s.parse::<u64>().ok()).unwrap_or(if cfg!(stunmon_asan) { 6 } else { 1 }).clamp(1, 100);
+        let limit_ms = limit_ms * scale;
         WD_LIMIT_MS.store(limit_ms, Ordering::SeqCst);
         #[cfg(not(miri))]
         {
@@ -249,6 +253,14 @@ impl Watchdog {
         WD_LABEL_LEN.store(WD_OLABEL_LEN.load(Ordering::SeqCst), Ordering::SeqCst);
         WD_CUR_LIMIT_MS.store(3 * WD_LIMIT_MS.load(Ordering::SeqCst), Ordering::SeqCst);
         WD_START_MS.store(now_ms(self.t0), Ordering::SeqCst);
+    }
+    /// The case is making progress (a library call returned, a new one is about to start): restart the
+    /// clock of the enclosing case region.  What the watchdog measures is one stretch between ticks.
+    #[inline]
+    pub fn tick(&self) {
+        if self.live && !WD_OLABEL.load(Ordering::SeqCst).is_null() {
+            WD_START_MS.store(now_ms(self.t0), Ordering::SeqCst);
+        }
     }
     /// Begin a case region over a byte buffer: every stretch of work on this buffer that is not inside
     /// a call region of its own is attributed to `label` and the buffer.  Returns false (and does
